@@ -74,10 +74,14 @@ func init() {
 			// the cascade terminates on cyclic references
 			ruleCascadeReentry(c, "C04.CASCADECYCLE")
 			ruleConstraintRegistered(c, "C04.CONSTRAINTREG")
+			// a non-nullable reference is refused on create: the parent chain runs as the kind of operation the entry point says
+			ruleCreateIsCreate(c, "C04.CREATECTX")
 			ruleFreshCascadeFilter(c, "C04.FRESHFILTER")
 			// the cascade re-positions its id cursor with Seek(Current()) after every delete: Seek must really
 			// re-seek the underlying bolt cursor
 			ruleSeekAbsolute(c, "C04.RESEEK")
+			// ... and land on the first remaining key >= the deleted one (a forward Seek does not move again)
+			ruleCursorDirection(c, c.cursorTypes(), "C04.CURSORSEEK", "C04.DIRPARAM")
 			ruleSymbolKeyRoles(c, "C04.SYMKEY")
 			ruleErrHolderShared(c, "C04.HOLDER")
 		},
@@ -158,6 +162,8 @@ func init() {
 			ruleOldFirst(c, "C06.STALE", []string{"uniqueIndex", "fkIndex"})
 			ruleLinkCleanup(c, "C06.LINKS")
 			ruleFkDelete(c, "C06.CASCADE")
+			// the cascade re-seeks its cursor to the id it just deleted: the Seek must land on the next referrer, not pass it
+			ruleCursorDirection(c, c.cursorTypes(), "C06.CURSORSEEK", "C06.DIRPARAM")
 			ruleCleanupPlacement(c, "C06.LINKS")
 			// a link that was removed earlier (RemoveLinks / SetLinks) must be gone from BOTH sides: the delete
 			// only walks the links the entity still holds
@@ -1557,7 +1563,62 @@ func ruleFkDelete(c *Ctx, rule string) {
 					}
 				}
 			}
-			if !hdrOK || !fromCurrent {
+			// the loop ends only when the cursor is exhausted or a failure is known: any other way out leaves
+			// referrers behind while the delete goes on to report success
+			if hdrOK && fromCurrent {
+				fi := factsOf(ds.fn)
+				for b := range l.Blocks {
+					for i, x := range b.Succs {
+						if l.Blocks[x] {
+							continue
+						}
+						if b == l.Header && i == 1 {
+							continue // cursor.IsValid() answered false
+						}
+						known := false
+						for f := range fi.edgeFacts(b, x) {
+							switch {
+							case f.Kind == "nonnil" && f.Pol && isErrorType(f.V.Type()):
+								// ... a failure that is recorded or returned (not one merely looked at)
+								if refs := f.V.Referrers(); refs != nil {
+									for _, r := range *refs {
+										switch u := r.(type) {
+										case *ssa.Return:
+											known = true
+										case ssa.CallInstruction:
+											if invokeNamed(u, "SetError") {
+												known = true
+											}
+										case *ssa.Phi:
+											if pr := u.Referrers(); pr != nil {
+												for _, r2 := range *pr {
+													if _, isRet := r2.(*ssa.Return); isRet {
+														known = true
+													}
+												}
+											}
+										}
+									}
+								}
+							case f.Kind == "true" && f.Pol:
+								if k, isCall := f.V.(*ssa.Call); isCall && (invokeNamed(k, "SetError") || invokeNamed(k, "HasError")) {
+									known = true
+								}
+							case f.Kind == "true" && !f.Pol:
+								if k, isCall := f.V.(*ssa.Call); isCall && invokeNamed(k, "IsValid") {
+									known = true
+								}
+							}
+						}
+						if !known && okLoop {
+							okLoop, why = false, "the cascade loop can be left at "+p.Pos(lastPos(b))+" while the cursor still has referrers and no failure is known (a condition other than the cursor's validity ends it): the entity is deleted, the delete reports success, and the remaining referrers keep the deleted id"
+						}
+					}
+				}
+			}
+			if !okLoop {
+				// decided above
+			} else if !hdrOK || !fromCurrent {
 				okLoop, why = false, "the cascade deletes from a pre-collected list instead of the live cursor: an entity already removed by a nested cascade is deleted again (not-found aborts the whole delete)"
 			} else if !reseek {
 				okLoop, why = false, "the cursor is not re-sought after deleting the current row (bolt skips the next row)"
@@ -2902,3 +2963,4 @@ func errorRecordedWhere(fn *ssa.Function, fi *FactInfo, isErr func(ssa.Value) bo
 	}
 	return false
 }
+
